@@ -75,6 +75,11 @@ class Policy:
         s = self.seed
         form = inp.section().split(':')[0]
         # ---- special cases that keep most scenarios inside what habutax implements
+        if base == 'number_dependents':
+            r = h01(s, name, 'deps')
+            val = str(int(r * 8) % 4) if r < 0.4 else '0'
+            self.fixed['1040.number_dependents'] = val
+            return val
         if base == 'number_under_17':
             return self.fixed.get('1040.number_dependents', '0')
         if base.endswith('_ctc'):
@@ -208,7 +213,7 @@ def exc_kind(e):
 def gen_policy(seed, year, kind=None):
     """A family of policies: plain, itemizing, rich (many payers), gates, NC."""
     rng = random.Random(f'{seed}/policy')
-    kind = kind or rng.choice(['plain', 'plain', 'itemize', 'rich', 'gates', 'big', 'mfj', 'deps'])
+    kind = kind or rng.choice(['plain', 'plain', 'itemize', 'rich', 'gates', 'big', 'mfj', 'deps', 'hsa'])
     fixed = {'1040.filing_status': rng.choice(STATUS_MEMBERS[year])}
     p_yes = 0.0
     scale = 1.0
@@ -226,6 +231,13 @@ def gen_policy(seed, year, kind=None):
         scale = 6.0
     elif kind == 'mfj':
         fixed['1040.filing_status'] = 'MarriedFilingJointly'
+    elif kind == 'hsa':
+        fixed['1040.filing_status'] = rng.choice(['MarriedFilingJointly', 'MarriedFilingJointly', 'Single'])
+        fixed.update({'1040.schedule_1_income_adjustments': 'yes', 'hsa_contribution_you': 'yes',
+                      'hsa_contribution_spouse': 'yes' if fixed['1040.filing_status'] == 'MarriedFilingJointly' else 'no',
+                      'age_under_55': 'yes', 'hsa_full_year': 'yes', 'hdhp_plan_family': 'no',
+                      'hsa_contributions': str(rng.choice([500, 1800, 2500.5, 3000])), 'employer_contribution': '0',
+                      'archer_msa': '0', 'educator_expenses': '0'})
     elif kind == 'deps':
         fixed['1040.number_dependents'] = str(rng.choice([1, 2, 3, 4]))
     return Policy(seed, year, fixed=fixed, p_yes=p_yes, scale=scale), kind
